@@ -40,6 +40,11 @@ def make_schema(r, i):
     decls.append({"kind": "impl", "protocol": r.choice(["uart", "lin", "eth"]), "type": structs[0], "name": None, "items": [("field", "id", 1)]})
     if r.random() < 0.5:
         decls.append({"kind": "impl", "protocol": r.choice(["spi", "usb"]), "type": structs[-1], "name": "Alt%d" % i, "items": [("field", "port", 2)]})
+    if i % 3 == 1:
+        # protocol names that differ only in spelling style are different protocols (different files)
+        a, b = r.choice([("canFd", "can_fd"), ("Uart", "uart"), ("flexRay", "flex_ray"), ("LIN", "lin")])
+        decls.append({"kind": "impl", "protocol": a, "type": structs[0], "name": "StyleA%d" % i, "items": [("field", "k", 1)]})
+        decls.append({"kind": "impl", "protocol": b, "type": structs[-1], "name": "StyleB%d" % i, "items": [("field", "k", 2)]})
     if r.random() < 0.7:
         decls.append({"kind": "service", "name": "Svc%d" % i, "id": r.randint(0, 200), "methods": [
             {"name": "Get", "id": 0, "input": structs[0], "output": structs[-1]},
